@@ -78,6 +78,12 @@ func observe(bd module.BlockData) *obsBlock {
 		panic(err)
 	}
 	o.Digest = dg.Bytes()
+	// accessors a consumer of the decoded block calls next
+	if blk, ok := bd.(module.Block); ok {
+		_ = blk.NextValidators()
+	}
+	_ = dg.Hash()
+	_ = dg.NTSHashEntryCount()
 	return o
 }
 
@@ -254,7 +260,14 @@ func (w *world) parseTxList(bss [][]byte, e *env) ([]module.Transaction, [][]byt
 			ok = false
 			continue
 		}
-		c := append([]byte{}, tx.Bytes()...)
+		var c []byte
+		if hxlib.Catch(func() { c = append([]byte{}, tx.Bytes()...) }) != "" {
+			if e != nil {
+				e.Tx = append(e.Tx, txEnt{in: bs})
+			}
+			ok = false
+			continue
+		}
 		if e != nil {
 			e.Tx = append(e.Tx, txEnt{in: bs, ok: true, out: c})
 		}
@@ -264,8 +277,13 @@ func (w *world) parseTxList(bss [][]byte, e *env) ([]module.Transaction, [][]byt
 	return txs, canon, ok
 }
 
-func (w *world) rootOf(txs []module.Transaction) []byte {
-	return w.nd.Chain.ServiceManager().TransactionListFromSlice(txs, module.BlockVersion2).Hash()
+func (w *world) rootOf(txs []module.Transaction) (root []byte) {
+	if p := hxlib.Catch(func() {
+		root = w.nd.Chain.ServiceManager().TransactionListFromSlice(txs, module.BlockVersion2).Hash()
+	}); p != "" {
+		return []byte("root panics: " + p)
+	}
+	return root
 }
 
 func flatBss(bss [][]byte) [][]byte {
@@ -294,10 +312,13 @@ func (w *world) envFor(in []byte, accepted *decRes) *env {
 	}
 	var vs module.CommitVoteSet
 	hxlib.Catch(func() { vs = w.nd.Chain.CommitVoteSetDecoder()(bf.Votes) })
+	var vb []byte
+	if vs != nil && hxlib.Catch(func() { vb = append([]byte{}, vs.Bytes()...) }) != "" {
+		vs = nil // a list whose Bytes() panics: no canonical bytes
+	}
 	if vs == nil {
 		e.Votes = append(e.Votes, votesEnt{in: bf.Votes})
 	} else {
-		vb := append([]byte{}, vs.Bytes()...)
 		e.Votes = append(e.Votes, votesEnt{in: bf.Votes, ok: true, out: vb})
 		e.addH(vb)
 	}
@@ -496,7 +517,7 @@ func (w *world) oracle(in []byte, ex expect) (string, *decRes) {
 		if strings.Contains(ex.Comment, "negative network id") {
 			tag = "decoder panics on a BTP digest with a negative network id"
 		}
-		return fmt.Sprintf("%s: %s", tag, r.panicked), r
+		return fmt.Sprintf("%s: %s", tag, cleanPanic(r.panicked)), r
 	}
 	// the other reader kind must agree
 	r2 := w.decode(in, false)
@@ -611,4 +632,34 @@ func (w *world) oracle(in []byte, ex expect) (string, *decRes) {
 		return "a block with a different header has the same id: " + ex.Comment, r
 	}
 	return "", r
+}
+
+// canonical votes bytes of a body field (nil decodes to the empty list); raw bytes when the
+// decoder refuses them
+func (w *world) canonVotes(bs []byte) []byte {
+	out := bs
+	hxlib.Catch(func() {
+		if vs := w.nd.Chain.CommitVoteSetDecoder()(bs); vs != nil {
+			out = vs.Bytes()
+		}
+	})
+	return out
+}
+
+// do two bodies differ in what they contain (nil and empty lists alike)
+func (w *world) bodyDiffers(x, y *block.V2BodyFormat) bool {
+	return !eqBss(x.PatchTransactions, y.PatchTransactions) || !eqBss(x.NormalTransactions, y.NormalTransactions) ||
+		!bytes.Equal(w.canonVotes(x.Votes), w.canonVotes(y.Votes)) || !eqOpt(x.BTPDigest, y.BTPDigest)
+}
+
+// a panic raised through the logger prints a logrus entry (pointers, wall clock): keep its message
+func cleanPanic(s string) string {
+	if i := strings.Index(s, " panic 0x"); i >= 0 && strings.HasPrefix(s, "&{") {
+		rest := s[i+len(" panic 0x"):]
+		if j := strings.Index(rest, " "); j >= 0 {
+			rest = rest[j+1:]
+		}
+		return strings.TrimSuffix(strings.TrimSpace(strings.TrimSuffix(strings.TrimSpace(rest), "}")), "<nil> <nil>")
+	}
+	return s
 }
